@@ -111,7 +111,7 @@ func coqItems(items []Item) string {
 	return lib.CoqList(out)
 }
 
-func coqCall(fe string, c *Call) string {
+func coqCall(fe string, c *Call, ord []string) string {
 	switch fe + "/" + c.Op {
 	case "graph/addnode":
 		return lib.CoqApp("GAddNode", lib.CoqStr(c.Key), coqKind(c.Kind), lib.CoqBool(c.NeedState), lib.CoqBool(c.NodeKeyOpt))
@@ -145,7 +145,7 @@ func coqCall(fe string, c *Call) string {
 	case "workflow/addend":
 		return lib.CoqApp("WAddEnd", lib.CoqStr(c.From), lib.CoqStrList(c.Fields))
 	case "workflow/compile":
-		return lib.CoqApp("WCompile", coqOpt(c), "[]")
+		return lib.CoqApp("WCompile", coqOpt(c), lib.CoqStrList(ord))
 	}
 	panic("harness: cannot print " + fe + "/" + c.Op)
 }
@@ -163,7 +163,7 @@ func coqObs(o CallObs) string {
 func coqCase(c *Case, obs []CallObs, intact bool) string {
 	pairs := make([]string, len(c.Calls))
 	for i := range c.Calls {
-		pairs[i] = lib.CoqPair(coqCall(c.FE, &c.Calls[i]), coqObs(obs[i]))
+		pairs[i] = lib.CoqPair(coqCall(c.FE, &c.Calls[i], obs[i].Ord), lib.CoqPair(coqObs(obs[i]), lib.CoqPair(lib.CoqStrList(obs[i].Gone), lib.CoqStrList(obs[i].New))))
 	}
 	ctor := map[string]string{"graph": "CaseG", "chain": "CaseC", "workflow": "CaseW"}[c.FE]
 	return lib.CoqApp(ctor, lib.CoqBool(c.State), lib.CoqList(pairs), lib.CoqBool(intact))
@@ -297,6 +297,9 @@ func (engine) Run(ci any) lib.Result {
 		again := execute(c, false)
 		for i := range first.obs {
 			a, b := first.obs[i], again.obs[i]
+			if c.FE != "workflow" && strings.Join(a.State, ";") != strings.Join(b.State, ";") {
+				fail("nondeterministic", fmt.Sprintf("attempt %d: the builder state after call %d differs from attempt 0", r, i))
+			}
 			if a.K != b.K {
 				fail("nondeterministic", fmt.Sprintf("attempt %d: call %d gave %s, attempt 0 gave %s", r, i, b.K, a.K))
 			} else if a.Cls != b.Cls {
